@@ -35,7 +35,9 @@ fn format_number(
 ) -> Resolved {
     let value: Decimal = match value {
         Value::Integer(v) => v.into(),
-        Value::Float(v) => Decimal::from_f64(*v).expect("not NaN"),
+        // infinities and magnitudes beyond the range of `Decimal` cannot be converted
+        Value::Float(v) => Decimal::from_f64(*v)
+            .ok_or_else(|| format!("unable to format the float {v} as a decimal number"))?,
         value => {
             return Err(ValueError::Expected {
                 got: value.kind(),
@@ -45,7 +47,15 @@ fn format_number(
         }
     };
     let scale = match scale {
-        Some(expr) => Some(expr.try_integer()?),
+        Some(expr) => {
+            // the number of decimal places to display: a negative value wrapped around to an
+            // enormous `usize` below (the call never returned), an enormous one pads forever
+            let scale = expr.try_integer()?;
+            if !(0..=i64::from(u16::MAX)).contains(&scale) {
+                return Err(format!("scale must be between 0 and {}", u16::MAX).into());
+            }
+            Some(scale)
+        }
         None => None,
     };
     let grouping_separator = match grouping_separator {
